@@ -789,9 +789,26 @@ def _evaluate(res, prop, config, req, out, hooks):
             if out.status == "raised" and isinstance(out.exc, Boom):
                 res.count("probe:crash_surfaced")
             elif out.status == "ok":
-                V.append(Violation(("C08",), "crash_lost",
-                                   (config, "success"),
-                                   "injected Boom but got a result"))
+                classes = sorted({
+                    BOOM_CLASSES[int(v[4:] or 0) % len(BOOM_CLASSES)].__name__
+                    for v in req.faults.values() if v.startswith("boom")})
+                key = (config, "success")
+                if classes == ["BoomExecution"]:
+                    # own key: the exception class that the entry point
+                    # catches around execute() (a listed known finding on the
+                    # blocking runtime must not mask any other lost crash)
+                    key = (config, "success", "ExecutionError-from-resolver")
+                    if config in ("blocking-opt", "blocking-gen",
+                                  "asyncio-inline"):
+                        # the resolver ran inside the entry point's own call
+                        # to execute()
+                        key = ("ExecutionError-from-resolver",
+                               "raised-inside-execute")
+                V.append(Violation(("C08",), "crash_lost", key,
+                                   "injected %s but got a result: %s" % (
+                                       "/".join(classes),
+                                       json.dumps(out.result.response())[:200]
+                                   )))
             else:
                 V.append(Violation(("C08",), "crash_lost",
                                    (config, "other-exception"),
